@@ -161,6 +161,7 @@ func main() {
 			{"max-alarms=1", optrun.Opts{"max-alarms": "1"}, 1},
 			{"max-alarms=3", optrun.Opts{"max-alarms": "3"}, 3},
 			{"max-alarms=2+on-demand", od.With("max-alarms", "2"), 2},
+			{"on-demand+report-summaries", od.With("report-summaries", "true").With("reports-dir", q(rdir)), 0},
 		}
 		if thorough {
 			vs = append(vs,
@@ -252,7 +253,14 @@ func main() {
 	// regression corpus: the global forms FnReadsFrom recognises today — eager and on-demand must agree
 	sweep("dir:"+filepath.Join(lib.Root(), "corpus", "c05_global_forms"), "corpus-global-forms",
 		[]variant{{"on-demand", optrun.Opts{"summarize-on-demand": "true"}, 0}, {"pkg-filter=nomatch", optrun.Opts{"pkg-filter": q("^zzz$")}, 0},
+			{"on-demand+report-summaries", optrun.Opts{"summarize-on-demand": "true", "report-summaries": "true", "reports-dir": q(rdir)}, 0},
 			{"on-demand+max-alarms=2", optrun.Opts{"summarize-on-demand": "true", "max-alarms": "2"}, 2}}, false)
+	// regression corpus: one source reaching many sinks, every small k
+	sweep("dir:"+filepath.Join(lib.Root(), "corpus", "c05_multi_sink"), "corpus-multi-sink",
+		[]variant{{"max-alarms=1", optrun.Opts{"max-alarms": "1"}, 1}, {"max-alarms=2", optrun.Opts{"max-alarms": "2"}, 2},
+			{"max-alarms=3", optrun.Opts{"max-alarms": "3"}, 3}, {"max-alarms=4+on-demand", optrun.Opts{"max-alarms": "4", "summarize-on-demand": "true"}, 4},
+			{"max-alarms=6", optrun.Opts{"max-alarms": "6"}, 6}, {"max-alarms=50", optrun.Opts{"max-alarms": "50"}, 50},
+			{"on-demand+report-summaries", optrun.Opts{"summarize-on-demand": "true", "report-summaries": "true", "reports-dir": q(rdir)}, 0}}, false)
 
 	// ---- generated programs
 	nGen, cases := 2, 40
